@@ -20,12 +20,16 @@ K_THOROUGH_ONLY = [
 PROPS = {
     "C01": dict(claim="Bounded symbolic checking of the predicate-graph scheduler: the real MIR of check_predicate_inner and every helper below it (parent map, Kahn levels, deferral, caching, node_edges, the byte-level effect scan) is executed by mirsym on symbolic graphs (1..3 nodes, <=2 edges quick / <=3 thorough, every edge_start and edge target any u16, post-read flag per node), both passes over a shared cache, with an uninterpreted node runner; each path is compared with the reference scheduling semantics (every node once, after all parents, inputs = parents' outputs ascending, pass assignment, verdict, failing indices, gas, data outputs; cyclic/malformed rejected unevaluated). Edge slicing (node_edges) is decided separately against its documented rule.",
                 outside=["graphs above the bound", "node evaluation (run_program) and the per-solution/set level are covered only through native replays", "dangling edge targets: only totality is asserted", "thread schedules (C02)"]),
-    "C03": dict(claim="Deferral half of the property: on the same symbolic graphs as C01 every node that depends on a post-state read (itself or an ancestor flagged) is evaluated only in the second pass and every other node exactly once in the first; the byte-level scan that sets the flag (bytes_contains_any) is decided against the parsed program on symbolic byte streams.",
-                outside=["the overlay semantics of read_or_fallback/next_key and the construction of the post-state map are not yet encoded", "graphs above the bound"]),
+    "C03": dict(claim="Overlay: read_or_fallback + next_key (real MIR) with an uninterpreted pre-state, symbolic keys (<=2 words), <=2 proposed entries incl. deletions, counts 0..2 and any count > 2^40: per position the proposed value if the set proposes one for (contract, key+i) else the pre-state value for exactly that key, untouched contracts pass through, pre-state errors are returned unchanged, key successor with carry exact for keys <=4 words. Deferral: on the same symbolic graphs as C01 every node that depends on a post-state read (itself or an ancestor flagged) is evaluated only in the second pass and every other node exactly once in the first; the byte-level scan that sets the flag (bytes_contains_any) is decided against the parsed program on symbolic byte streams.",
+                outside=["the construction of the post-state map in the two-pass entry point and the pre/post routing of the four read ops are covered only through native replays", "graphs / key lengths above the bound"]),
+    "C04": dict(claim="Set-level uniqueness: check_set_state_mutations (real MIR) on sets of 1..3 solutions over two contracts with <=2 mutations each and symbolic keys accepts a set exactly when no two mutations of the WHOLE set address the same (contract, key); hence an accepted set proposes at most one value per slot, the post-state map built from it does not depend on insertion order, and the verdict of set validation is a symmetric function of the solutions.",
+                outside=["content-address order independence (hash crate) and the two-pass verdict under permutation are not separately encoded: the latter follows from C01's per-solution reference semantics plus the well-defined post-state (argument, not a query)"]),
+    "C16": dict(claim="Validators against the documented limits: check_set on sets built at limit-1 / limit / limit+1 / 0 for every pair of the six limits (solutions, slots, words per slot, total mutations, key and value length), predicate::check and check_contract at 999/1000/1001 nodes and edges and 99/100/101 predicates with the oversized predicate at any position; the one-mutation-per-slot rule with symbolic keys; and check::decode_mutations on symbolic data-output memories: an Ok set never holds two mutations for one key (declared + computed).",
+                outside=["lengths are concrete boundary values (the validators only measure lengths), not symbolic integers", "check_signed_contract's signature part (C19)"]),
     "C05": dict(claim="One inductive step per operation: every Stack/Pred/Alu/Memory/ParentMemory op from an arbitrary machine state within the bound returns Ok or a typed Err on every path - a feasible panic, arithmetic overflow, out-of-bounds index or unreachable! is reported (mirsym treats MIR assert terminators and std panics as first-class outcomes).",
                 outside=["control-flow, access, crypto, state-read and compute ops, and the exec loop, are not yet encoded here", "states above the bound; the 4096/10240 limits are reached only through symbolic operands, not through large states"]),
     "C06": dict(claim="No feasible panic / allocation abort in the decoders for mutations and predicates, Predicate::node_edges, single-op and stream bytecode parsing, BytecodeMapped construction and the graph scheduler, on symbolic inputs within the stated bounds (word strings <=6, byte strings in 16 length classes <=76, byte streams of <=3 ops, graphs <=3 nodes incl. cyclic, dangling and malformed ones).",
-                outside=["read_or_fallback, check_set, predicate::check, check_contract not yet encoded", "inputs above the bounds"]),
+                outside=["inputs above the bounds", "GetPredicate/GetProgram map lookups (caller contract)"]),
     "C07": dict(claim="Vm::exec (real MIR) against a nondeterministic operation (any of None / Pc(any) / Halt / ComputeEnd / ComputeResult(any pc, any gas, any halt) / Err), any per-op cost (0..u64::MAX), any total limit, from any start pc: Ok(g) implies g is exactly the sum of the costs of the executed ops plus the gas returned by compute children, that sum does not overflow and g <= limit; OutOfGas is raised before the op executes (one more cost call than op executions) exactly when the next cost does not fit, or after a Compute whose children's gas does not fit.",
                 outside=["more than 2 (thorough 3) loop iterations per path - the assertion is per iteration from an arbitrary accumulated gas", "that compute children individually respect the limit is the same loop (Vm::exec) applied recursively", "checker-level saturating sums are decided under C01"]),
     "C09": dict(claim="JumpIf/HaltIf/PanicIf/Halt from any stack <=4 words and any pc against the specification (condition 0/1, non-zero distance, target = pc + distance computed exactly, errors otherwise, PanicIf returns the stack); Repeat/RepeatEnd/RepeatCounter as ONE step of a state machine from an ARBITRARY repeat stack of <=2 slots (any counter/limit/direction/start index) - the loop semantics for every count follows by induction on the counter; the 4096-entry limit; Vm::eval's result.",
@@ -47,11 +51,9 @@ PROPS = {
 
 NOT_APPLICABLE = {
     "C02": "thread-schedule independence of the rayon sections: Kani has no concurrency model and ICEs on rayon-reaching code; encoding rayon's work-stealing scheduler for the solver is out of reach; the 'equals the sequential evaluation' half is decided under C01 (DESIGN.md section 5)",
-    "C04": "not yet encoded (solution-set permutation invariance); see DESIGN.md section 4",
     "C10": "not yet encoded (compute fork/join)",
     "C11": "not yet encoded (state-read ops)",
     "C12": "not yet encoded (access / crypto marshalling)",
-    "C16": "not yet encoded (validator limits)",
     "C19": "not yet encoded (signature plumbing)",
     "C20": "not yet encoded (lock)",
 }
